@@ -65,7 +65,7 @@ func verifC02NewTxScene(ne, home int, conc int) *verifC02TxScene {
 		a.txs = append(a.txs, a.addTx(o))
 		if i == home {
 			off := verifU64("slotOffset")
-			verifAssume(off < verifC02TxWindow)
+			verifAssume(off < uint64(verifParam("offsets", verifC02TxWindow)))
 			t := &verifC02Tx{slot: a.lo() + off, sig: sig}
 			t.hasPos = verifChoice("positions", verifParam("positionModes", 2)) == verifParam("positionModes", 2)-1
 			if t.hasPos {
@@ -82,7 +82,7 @@ func verifC02NewTxScene(ne, home int, conc int) *verifC02TxScene {
 				sc.blocktime = int64(verifIteU64(off == uint64(k), uint64(times[k]), uint64(sc.blocktime)))
 			}
 		} else {
-			a.sigExistsFP = verifChoice("sigExistsFalsePositive", 2) == 1
+			a.sigExistsFP = verifChoice("sigExistsFalsePositive", verifParam("fpModes", 2)) == 1
 		}
 		sc.multi.epochs[a.num] = a.e
 	}
@@ -135,7 +135,7 @@ func VerifC02JsonTx() {
 	raw := json.RawMessage("[opaque]")
 	req := &jsonrpc2.Request{Method: "getTransaction", ID: jsonrpc2.ID{Num: 1}, Params: &raw}
 	conn := &requestContext{ctx: &fasthttp.RequestCtx{}}
-	errResp, err := sc.multi.handleGetTransaction(context.Background(), conn, req)
+	errResp, err := sc.multi.handleRequest(context.Background(), conn, req)
 	verifAssert(errResp == nil && err == nil, "C02.jsonTx: archived transaction is answered with an error")
 	if errResp != nil || err != nil {
 		return
